@@ -13,6 +13,19 @@ def _s(x):
 
 
 def real_policy_round_trip(tier, seed):
+    # every value this probe hands to the driver is a legal one (incl. empty text / blob and nulls): an exception escaping the driver is a failure of the
+    # property ("transparent"), reported with the place it came from - not a crash of the probe
+    import traceback
+    try:
+        return _real_policy_round_trip(tier, seed)
+    except Exception as e:
+        tb = traceback.extract_tb(e.__traceback__)
+        where = next((f for f in reversed(tb) if '/cassandra/' in f.filename), tb[-1])
+        return {'name': 'real-aes-policy-round-trip', 'kind': 'bounded', 'cases': 1, 'evaluations': 1, 'distinct_nontrivial': 1, 'rule': 'stopped by an exception', 'bound': 'n/a',
+                'violations': ['%s raised by %s:%d (%s) for a legal value' % (repr(e)[:160], where.filename.split('/cassandra/')[-1], where.lineno, where.name)]}
+
+
+def _real_policy_round_trip(tier, seed):
     try:
         from cassandra.column_encryption.policies import AES256ColumnEncryptionPolicy
     except Exception as e:
@@ -34,9 +47,14 @@ def real_policy_round_trip(tier, seed):
         for ln in range(0, 49):
             b = bytes(rng.randrange(256) for _ in range(ln))
             n += 1
-            e = pol.encrypt(cd, b)
-            if pol.decrypt(cd, e) != b or e == b:
-                fails.append('decrypt(encrypt(%r)) = %r' % (b, pol.decrypt(cd, e)))
+            try:
+                e = pol.encrypt(cd, b)
+                back = pol.decrypt(cd, e)
+            except Exception as ex:
+                fails.append('encrypt / decrypt of %d bytes raised %r' % (len(b), ex))
+                continue
+            if back != b or e == b:
+                fails.append('decrypt(encrypt(%r)) = %r' % (b, back))
         prep = PreparedStatement([ColumnMetadata('ks', 'tb', name, BytesType), ColumnMetadata('ks', 'tb', 'k', Int32Type)], b'id', None, 'q', 'ks', 4, None, None, pol)
         for v in vals + [None]:
             n += 1
